@@ -713,4 +713,155 @@ Section ObsEq.
                    destruct (gpair_found (At s) g Hg Hs) as [gq [_ [_ [Hpair _]]]]. rewrite Hpair. reflexivity.
       + eapply attr_rel_copied; eauto.
   Qed.
+
+  (* ---------------- the four lists *)
+  Lemma list_obs_eq : forall name dl (news olds : list addr),
+      In name ["metabolites"; "genes"; "reactions"; "groups"] ->
+      get h' dl = Some (mkCell KDictList (dl_items news)) ->
+      list_elems h0 (attr mc name) = map Ref olds ->
+      Forall2 (fun a' a => obs_obj h' (Some m') [] a' = obs_obj h0 (Some m) [] a) news olds ->
+      exists od, attr mc name = Some (Ref od) /\ obs_list h' m' (Ref dl) = obs_list h0 m (Ref od).
+  Proof.
+    intros name dl news olds Hname Hdl Hl HF. destruct (co_list HCO name Hname) as [od [c [Ha [Hg Hk]]]].
+    exists od. split; [exact Ha|]. unfold obs_list. rewrite Hdl, Hg, Hk. cbn [ckind]. f_equal.
+    rewrite elems_dl_items. rewrite Ha in Hl. unfold list_elems in Hl. rewrite Hg in Hl. rewrite Hl. rewrite !map_map.
+    clear - HF. induction HF as [|a' a r' r E HF IH]; cbn [map]; [reflexivity|]. cbv beta iota. f_equal; [f_equal; exact E|exact IH].
+  Qed.
+
+  Lemma forall2_map : forall {A} (f g : A -> addr) (L : list A),
+      (forall q, In q L -> obs_obj h' (Some m') [] (f q) = obs_obj h0 (Some m) [] (g q)) ->
+      Forall2 (fun a' a => obs_obj h' (Some m') [] a' = obs_obj h0 (Some m) [] a) (map f L) (map g L).
+  Proof.
+    intros A f g L H. induction L as [|x r IH]; cbn; constructor.
+    - apply H. left. reflexivity.
+    - apply IH. intros q Hq. apply H. right. exact Hq.
+  Qed.
+
+  (* ---------------- the model object *)
+  Definition Fv (H : heap) (R : addr) (s : string) (v : value) : tree :=
+    if is_list_attr s then obs_list H R v else obs_val H (Some R) DEPTH v.
+
+  Lemma explicit_not_list : forall s, In s ("_solver" :: map fst (ct_model_explicit T)) -> is_list_attr s = false.
+  Proof.
+    intros s Hs. destruct (is_list_attr s) eqn:E; auto. exfalso. unfold is_list_attr in E. apply mems_In in E.
+    destruct Hs as [<-|Hs]; [cbn in E; intuition discriminate|].
+    apply (sh_explicit T HSH s); [|exact Hs]. cbn in E. cbn. tauto.
+  Qed.
+
+  Lemma model_attr_rel : forall cm s, get h' m' = Some cm -> s <> "_contexts" ->
+      (attr cm s = None /\ attr mc s = None) \/
+      (exists v' v, attr cm s = Some v' /\ attr mc s = Some v /\ Fv h' m' s v' = Fv h0 m s v).
+  Proof.
+    intros cm s Hcm Hne.
+    assert (forall t, attr cm t = attr_at h' m' t) as Hat by (intros t; unfold attr_at; rewrite Hcm; reflexivity).
+    destruct (in_dec string_dec s ["metabolites"; "genes"; "reactions"; "groups"]) as [Hl|Hnl].
+    - (* one of the four lists *)
+      right. assert (is_list_attr s = true) as Eil.
+      { unfold is_list_attr. apply mems_In. cbn in Hl. cbn. tauto. }
+      unfold Fv. rewrite Eil.
+      assert (exists dl news olds, attr_at h' m' s = Some (Ref dl) /\ get h' dl = Some (mkCell KDictList (dl_items news)) /\
+                                   list_elems h0 (attr mc s) = map Ref olds /\
+                                   Forall2 (fun a' a => obs_obj h' (Some m') [] a' = obs_obj h0 (Some m) [] a) news olds) as Hx.
+      { destruct Hl as [<-|[<-|[<-|[<-|[]]]]].
+        - exists dlm, (map r_new MM), (map r_old MM). split; [exact D_am|]. split; [exact D_dlm|]. split; [rewrite D_oldM; apply (mo_lm _ _ _ _ _ _ _ _ HOK)|].
+          apply forall2_map. exact met_obj_eq.
+        - exists dlg, (map r_new GG), (map r_old GG). split; [exact D_ag|]. split; [exact D_dlg|]. split; [rewrite D_oldG; apply (mo_lg _ _ _ _ _ _ _ _ HOK)|].
+          apply forall2_map. exact gene_obj_eq.
+        - exists dlr, (map q_new RR), (map q_old RR). split; [exact D_ar|]. split; [exact D_dlr|]. split; [rewrite D_oldR; apply (mo_lr _ _ _ _ _ _ _ _ HOK)|].
+          apply forall2_map. exact rxn_obj_eq.
+        - exists dlgr, (map r_new PP), (map r_old PP). split; [exact D_ap|]. split; [exact D_dlgr|]. split; [rewrite D_oldP; apply (mo_lp _ _ _ _ _ _ _ _ HOK)|].
+          apply forall2_map. exact grp_obj_eq. }
+      destruct Hx as [dl [news [olds [Ha [Hdl [Hle HF]]]]]].
+      destruct (list_obs_eq s dl news olds Hl Hdl Hle HF) as [od [Hod Heq]].
+      exists (Ref dl), (Ref od). split; [rewrite Hat; exact Ha|]. split; [exact Hod|exact Heq].
+    - destruct (in_dec string_dec s ("_solver" :: map fst (ct_model_explicit T))) as [He|Hne2].
+      + right. destruct (D_deep s He) as [v [v' [Hv [Hv' Hiso]]]]. exists v', v. split; [rewrite Hat; exact Hv'|]. split; [exact Hv|].
+        unfold Fv. rewrite (explicit_not_list s He). eapply diso_obs_val. exact Hiso.
+      + assert (~ In s specials) as Hns.
+        { unfold specials. intros [E|[E|Hin]]; [congruence|apply Hne2; left; exact E|].
+          do 4 (destruct Hin as [E|Hin]; [apply Hnl; cbn; rewrite <- E; tauto|]). apply Hne2. right. exact Hin. }
+        pose proof (D_other s Hns) as Ho. rewrite <- Hat in Ho.
+        destruct (attr mc s) as [v|] eqn:Ev.
+        * right. destruct (co_model_cell HCO s v Ev Hns) as [Hex Hatom]. rewrite Hex in Ho. exists v, v. split; [exact Ho|]. split; [reflexivity|].
+          unfold Fv. assert (is_list_attr s = false) as ->.
+          { destruct (is_list_attr s) eqn:E; auto. exfalso. apply Hnl. unfold is_list_attr in E. apply mems_In in E. cbn in E. cbn. tauto. }
+          destruct v as [a|x]; [|discriminate]. rewrite !obs_val_atom. reflexivity.
+        * left. split; [|reflexivity]. destruct (mems s (ct_model_excluded T)); exact Ho.
+  Qed.
+
+  Definition Fitem (H : heap) (R : addr) (kv : value * value) : tree * tree :=
+    (obs_val H (Some R) DEPTH (fst kv),
+     match fst kv with
+     | At nm => if is_list_attr nm then obs_list H R (snd kv) else obs_val H (Some R) DEPTH (snd kv)
+     | Ref _ => TCut
+     end).
+
+  Lemma Fitem_at : forall H R s v, Fitem H R (At s, v) = (TAt s, Fv H R s v).
+  Proof. intros H R s v. unfold Fitem, Fv. cbn [fst snd]. rewrite obs_val_atom. reflexivity. Qed.
+
+  Definition not_ctx (kv : value * value) : bool := negb (key_is (fst kv) "_contexts").
+
+  Lemma not_ctx_at : forall s v, not_ctx (At s, v) = true <-> s <> "_contexts".
+  Proof.
+    intros s v. unfold not_ctx, key_is. cbn [fst]. rewrite negb_true_iff. split.
+    - intros H E. subst. rewrite String.eqb_refl in H. discriminate.
+    - intros H. apply String.eqb_neq. exact H.
+  Qed.
+
+  Lemma obs_model_unfold : forall H R c, get H R = Some c ->
+    obs_model H R = TNode KModel (sort_items (map (Fitem H R) (filter not_ctx (citems c)))).
+  Proof. intros H R c Hg. unfold obs_model. rewrite Hg. reflexivity. Qed.
+
+  Lemma items_side : forall (H1 H2 : heap) R1 R2 (c1 c2 : cell) x,
+      NoDup (keys_of (citems c1)) -> (forall k, In k (keys_of (citems c1)) -> exists s, k = At s) ->
+      (forall s, s <> "_contexts" -> forall v1, attr c1 s = Some v1 -> exists v2, attr c2 s = Some v2 /\ Fv H1 R1 s v1 = Fv H2 R2 s v2) ->
+      In x (map (Fitem H1 R1) (filter not_ctx (citems c1))) -> In x (map (Fitem H2 R2) (filter not_ctx (citems c2))).
+  Proof.
+    intros H1 H2 R1 R2 c1 c2 x Hnd Hat Hrel Hin. apply in_map_iff in Hin as [[k v1] [<- Hkv]].
+    apply filter_In in Hkv as [Hkv Hf].
+    destruct (Hat k) as [s ->]; [unfold keys_of; apply in_map_iff; exists (k, v1); auto|].
+    apply not_ctx_at in Hf.
+    assert (attr c1 s = Some v1) as A1 by (unfold attr; apply in_lookup; auto).
+    destruct (Hrel s Hf v1 A1) as [v2 [A2 E]]. rewrite Fitem_at, E, <- Fitem_at. apply in_map.
+    apply filter_In. split; [unfold attr in A2; apply lookup_in; exact A2|]. apply not_ctx_at. exact Hf.
+  Qed.
+
+  Lemma nodup_items : forall (H : heap) R (c : cell),
+      NoDup (keys_of (citems c)) -> (forall k, In k (keys_of (citems c)) -> exists s, k = At s) ->
+      NoDup (map ikey (map (Fitem H R) (filter not_ctx (citems c)))).
+  Proof.
+    intros H R c Hnd Hat. rewrite map_map.
+    assert (forall l : list (value * value), NoDup (keys_of l) -> (forall k, In k (keys_of l) -> exists s, k = At s) ->
+                                               NoDup (map (fun x => ikey (Fitem H R x)) (filter not_ctx l))) as Hgen.
+    { induction l as [|[k v] r IH]; intros Hn Ha; cbn [filter map]; [constructor|]. cbn in Hn. inv Hn.
+      assert (forall k0, In k0 (keys_of r) -> exists s, k0 = At s) as Ha' by (intros k0 Hk0; apply Ha; right; exact Hk0).
+      destruct (not_ctx (k, v)); [|apply IH; auto]. cbn [map]. constructor; [|apply IH; auto].
+      destruct (Ha k (or_introl eq_refl)) as [s ->]. intro Hin. apply in_map_iff in Hin as [[k2 v2] [E Hk2]].
+      apply filter_In in Hk2 as [Hk2 _]. destruct (Ha' k2) as [s2 ->]; [unfold keys_of; apply in_map_iff; exists (k2, v2); auto|].
+      rewrite !Fitem_at in E. unfold ikey in E. cbn [fst tree_key] in E. subst s2. apply H2. unfold keys_of. apply in_map_iff. exists (At s, v2). auto. }
+    apply Hgen; auto.
+  Qed.
+
+  Theorem obs_model_eq : obs_model h' m' = obs_model h0 m.
+  Proof.
+    destruct D_cell as [cm [Hcm [Hk [Hnd Hat]]]].
+    pose proof (mo_get _ _ _ _ _ _ _ _ HOK) as Hm.
+    rewrite (obs_model_unfold h' m' cm Hcm), (obs_model_unfold h0 m mc Hm).
+    assert (forall k, In k (keys_of (citems mc)) -> exists s, k = At s) as Hatm.
+    { intros k Hk'. unfold keys_of in Hk'. apply in_map_iff in Hk' as [kv [<- Hkv]]. apply (mo_names _ _ _ _ _ _ _ _ HOK kv Hkv). }
+    pose proof (mo_nodup _ _ _ _ _ _ _ _ HOK) as Hndm.
+    assert (sort_items (map (Fitem h' m') (filter not_ctx (citems cm))) =
+            sort_items (map (Fitem h0 m) (filter not_ctx (citems mc)))) as ->; [|reflexivity].
+    apply sort_items_permutation; [|exact (nodup_items h' m' cm Hnd Hat)].
+    apply NoDup_Permutation.
+    - eapply NoDup_map_inv. exact (nodup_items h' m' cm Hnd Hat).
+    - eapply NoDup_map_inv. exact (nodup_items h0 m mc Hndm Hatm).
+    - intros x. split.
+      + apply (items_side h' h0 m' m cm mc x Hnd Hat). intros s Hs v1 A1.
+        destruct (model_attr_rel cm s Hcm Hs) as [[N1 _]|[v' [v [B1 [B2 E]]]]]; [congruence|].
+        rewrite A1 in B1. injection B1 as <-. exists v. split; [exact B2|exact E].
+      + apply (items_side h0 h' m m' mc cm x Hndm Hatm). intros s Hs v1 A1.
+        destruct (model_attr_rel cm s Hcm Hs) as [[_ N2]|[v' [v [B1 [B2 E]]]]]; [congruence|].
+        rewrite A1 in B2. injection B2 as <-. exists v'. split; [exact B1|symmetry; exact E].
+  Qed.
 End ObsEq.
